@@ -1,4 +1,4 @@
-ENGINES = {"front": {"pkg": "internal/app", "dir": "harness/front", "replay": "TestReplay_Front"}}
+ENGINES = {"front": {"pkg": "internal/app", "dir": "harness/front", "replay": "TestReplay_Front", "extra_bins": {"hookaido": "./cmd/hookaido"}}}
 
 PROPS = {
     "C10": {
@@ -108,5 +108,17 @@ PROPS = {
         "parts": [{"engine": "front", "test": "TestProp_C18_Reload", "quick": 400, "thorough": 30000},
                   {"engine": "front", "test": "TestProp_C18_FileCrash", "quick": 150, "thorough": 3000},
                   {"engine": "front", "test": "TestProp_C18_MgmtRollback", "quick": 60, "thorough": 600}],
+    },
+    "C01": {
+        "rule": "process tier: the real `hookaido run` binary (verif build) on a SQLite file with a 2-3 target fan-out deliver route (targets on a closed "
+                "port, retry base 1h) and a pull route, driven over real HTTP by 1-8 concurrent clients (ingress POSTs, publish batches, pull "
+                "dequeue/ack/nack); the process SIGKILLs itself at the n-th hit of one of 14 hook labels (between per-target enqueues, before/after the "
+                "202, after the publish commit, after the store ack/nack, inside sqlite transactions) or is SIGKILLed externally after k requests; it is "
+                "restarted on the same db and inspected through GET /messages, pull dequeue after lease expiry and PRAGMA integrity_check; non-trivial = the "
+                "label was hit (or external kill), >=1 request acknowledged before and >=1 in flight at the kill",
+        "level": "fault_enumeration",
+        "assumptions": ["SIGKILL keeps the OS page cache: power-loss durability is not decided", "interleavings of the concurrent clients are sampled by the OS scheduler"],
+        "guards": ["acked-before-crash", "inflight-at-crash", "redelivery-checked"],
+        "parts": [{"engine": "front", "test": "TestProp_C01_ProcessCrash", "quick": 64, "thorough": 4000, "shards": {"quick": 8}, "needs_bins": ["hookaido"], "shrinktime": "60s"}],
     },
 }
